@@ -238,7 +238,7 @@ pub fn spec_strategy() -> impl Strategy<Value = ElfSpec> {
     (
         (proptest::bool::weighted(0.75), proptest::bool::weighted(0.8), 1u16..6000, any::<u64>()),
         (
-            proptest::option::weighted(0.8, prop_oneof![3 => proptest::collection::vec(any::<u8>(), 20), 1 => proptest::collection::vec(any::<u8>(), 16), 1 => proptest::collection::vec(any::<u8>(), 8), 1 => proptest::collection::vec(any::<u8>(), 32), 1 => Just(vec![0u8; 20]), 1 => proptest::collection::vec(any::<u8>(), 0..65)]),
+            proptest::option::weighted(0.8, prop_oneof![3 => proptest::collection::vec(any::<u8>(), 20), 1 => proptest::collection::vec(any::<u8>(), 16), 1 => proptest::collection::vec(any::<u8>(), 8), 1 => proptest::collection::vec(any::<u8>(), 32), 1 => Just(vec![0u8; 20]), 1 => proptest::collection::vec(any::<u8>(), 0..65), 1 => (any::<u8>(), 1usize..33).prop_map(|(b, n)| vec![b; n]), 1 => (proptest::collection::vec(any::<u8>(), 1..9), 1usize..5).prop_map(|(v, k)| v.repeat(2 * k))]),
             proptest::bool::weighted(0.7),
             proptest::bool::weighted(0.7),
             prop_oneof![Just(4u8), Just(8u8)],
@@ -252,10 +252,10 @@ pub fn spec_strategy() -> impl Strategy<Value = ElfSpec> {
         ),
         proptest::bool::weighted(0.8),
         0u8..4,
-        (0u8..5, prop_oneof![3 => Just(0u8), 1 => 1u8..8], proptest::bool::weighted(0.25), 0u8..5),
+        (0u8..5, prop_oneof![3 => Just(0u8), 1 => 1u8..8], proptest::bool::weighted(0.25), 0u8..5, prop_oneof![2 => Just(0u8), 3 => 1u8..5], proptest::bool::weighted(0.3)),
     )
-        .prop_map(|((class64, little, text_len, text_seed), (build_id, note_phdr, note_section, note_align, other_notes), (soname, dyn_phdr, dyn_section, dyn_order), sections, extra_phdrs, (pages, seg2_delta_pages, empty_note_first, shstr_rotation))| ElfSpec {
-            class64, little, text_len, text_seed, build_id, note_phdr, note_section, note_align, other_notes, soname, dyn_phdr, dyn_section, dyn_order, sections, extra_phdrs, pages, seg2_delta_pages, empty_note_first, shstr_rotation,
+        .prop_map(|((class64, little, text_len, text_seed), (build_id, note_phdr, note_section, note_align, other_notes), (soname, dyn_phdr, dyn_section, dyn_order), sections, extra_phdrs, (pages, seg2_delta_pages, empty_note_first, shstr_rotation, decoy_before, decoy_after))| ElfSpec {
+            class64, little, text_len, text_seed, build_id, note_phdr, note_section, note_align, other_notes, soname, dyn_phdr, dyn_section, dyn_order, sections, extra_phdrs, pages, seg2_delta_pages, empty_note_first, shstr_rotation, decoy_before, decoy_after,
         })
 }
 
@@ -302,7 +302,7 @@ pub fn run(ctx: &mut LaneCtx) {
     ctx.run_enum(
         "system-files",
         "every ELF file found under /usr/lib, /usr/bin, /lib, /usr/sbin, /usr/libexec, the Rust toolchains and /opt/veriftools (sorted; evenly sub-sampled to 320 in the quick tier, all in the thorough tier): module reader vs independent reader, by slice and by path",
-        system_elf_files(cap).into_iter(),
+        (if ctx.wants("system-files") && ctx.fuzz_bytes.is_none() { system_elf_files(cap) } else { vec![] }).into_iter(),
         check_file,
     );
 }
